@@ -173,7 +173,7 @@ def c28RawVerdicts (pre : Server) (h : HState) (hc : HConn) (bytes : List Nat) (
   let v3 := match big with
     | some f =>
       if io.closed.contains hc.n then [] else
-        [fail "C28" (if f.2 + 1 ≤ h.maxpkt then "F28" else "-")
+        [fail "C28" "-"
           s!"c{hc.n}: a packet of {f.1} bytes (remaining length {f.2}) was accepted although the maximum packet size is {h.maxpkt}"]
     | none => []
   v2 ++ v3
